@@ -101,12 +101,26 @@ def run(cx, rep):
            "could not identify mark/store/clear methods of SchemaPrintingContext (mark %s, store %s, clear %s)" % (markers, storers, clearers), mod.loc(spc.node),
            sample={"mark": sorted(markers), "store": sorted(storers), "clear": sorted(clearers), "in_progress_field": prog_field, "definitions_field": defs_field})
     n_sites = 0
-    for cname, c in sorted(mod.classes.items()):
-        for mname, m in sorted(c.methods.items()):
-            fn = m["function"]
-            if fn.get("body") is None or c is spc:
-                continue
-            for blk in [x for x in walk(fn["body"]) if x["type"] == "BlockStatement"] + [fn["body"]]:
+    # the protocol may be driven from methods of the validator classes or from module-level helpers they share
+    units = [(cname, mname, m["function"], "%s.%s" % (cname, mname)) for cname, c in sorted(mod.classes.items()) if c is not spc
+             for mname, m in sorted(c.methods.items()) if m["function"].get("body") is not None]
+    units += [(None, fname, fn, fname) for fname, fn in sorted(mod.functions.items()) if fn.get("body") is not None]
+    def n_users(cname, mname):
+        """a site in a shared helper stands for each of its call sites (two copies merged into one helper are still two uses)"""
+        k = 0
+        for c2, m2, fn2, _ in units:
+            if fn2 is not None and not (c2 == cname and m2 == mname):
+                for x in walk(fn2):
+                    if x["type"] != "CallExpression":
+                        continue
+                    if cname is None and unparen(x["callee"]).get("type") == "Identifier" and unparen(x["callee"])["value"] == mname:
+                        k += 1
+                    elif cname is not None and c2 == cname and method_call(x) and s(method_call(x)[0]) == "this" and method_call(x)[1] == mname:
+                        k += 1
+        return max(1, k)
+    for cname, mname, fn, ulabel in units:
+        if True:
+            for blk in [x for x in walk(fn["body"]) if x["type"] == "BlockStatement"]:
                 st = blk["stmts"]
                 for i, sx in enumerate(st):
                     if sx["type"] != "ExpressionStatement":
@@ -114,7 +128,7 @@ def run(cx, rep):
                     mc = method_call(sx["expression"])
                     if not mc or mc[1] not in markers:
                         continue
-                    n_sites += 1
+                    n_sites += n_users(cname, mname)
                     name = s(mc[2][0])
                     recv = s(mc[0])
                     # scan forward to the store for the same name
@@ -144,26 +158,21 @@ def run(cx, rep):
                             why = "`%s` can throw between markDefinitionInProgress(%s) and storeDefinition: the mark would stay and every later schemaWithContext on this context emits a $ref to a definition that is never exported" % (
                                 s(calls_in(sj)[0])[:60], name)
                             # keep scanning to see whether a store exists at all
-                    rep.ob("C16.1", "%s.%s/%s" % (cname, mname, name), bool(ok), why, mod.loc(sx), sample={"site": "%s.%s" % (cname, mname), "name": name})
-    rep.floor("C16.1", "markDefinitionInProgress sites", n_sites, 2)
+                    rep.ob("C16.1", "%s/%s" % (ulabel, name), bool(ok), why, mod.loc(sx), sample={"site": ulabel, "name": name})
+    rep.floor("C16.1", "markDefinitionInProgress sites (a shared helper counts once per caller)", n_sites, 2)
     # ---------------------------------------------------------------- C16.2
     rep.rule("C16.2", "first writer wins, once")
     n_store = 0
-    for cname, c in sorted(mod.classes.items()):
-        if c is spc:
-            continue
-        for mname, m in sorted(c.methods.items()):
-            fn = m["function"]
-            if fn.get("body") is None:
-                continue
+    for cname, mname, fn, ulabel in units:
+        if True:
             for call in [x for x in walk(fn) if x["type"] == "CallExpression" and method_call(x) and method_call(x)[1] in storers]:
-                n_store += 1
+                n_store += n_users(cname, mname)
                 name = s(method_call(call)[2][0])
                 guarded = guarded_by_absence(fn, call, name)
-                rep.ob("C16.2", "%s.%s/guard" % (cname, mname), guarded,
+                rep.ob("C16.2", "%s/guard" % ulabel, guarded,
                        "storeDefinition(%s, ..) is not under `!hasDefinition(%s) && !isDefinitionInProgress(%s)`: a definition could be overwritten by a later (possibly partial) body" % (name, name, name),
-                       mod.loc(call), sample={"site": "%s.%s" % (cname, mname), "name": name})
-    rep.floor("C16.2", "storeDefinition call sites", n_store, 2)
+                       mod.loc(call), sample={"site": ulabel, "name": name})
+    rep.floor("C16.2", "storeDefinition call sites (a shared helper counts once per caller)", n_store, 2)
     writers = set()
     for cname, c in mod.classes.items():
         for mname, m in c.methods.items():
@@ -263,6 +272,20 @@ def run(cx, rep):
     # in-progress mark taken for a key is read as the recursion mark of the type.
     fam16 = ts_common.Family(cx)
     n_drv = 0
+    # module-level helpers that run the protocol (directly or through each other): their callers are the drivers
+    helper_drv = set()
+    grew = True
+    while grew:
+        grew = False
+        for fname, fn in mod.functions.items():
+            if fname in helper_drv or fn.get("body") is None:
+                continue
+            for x in walk(fn):
+                if x["type"] == "CallExpression" and ((method_call(x) and method_call(x)[1] in (storers | markers)) or
+                                                      (x["callee"].get("type") == "Identifier" and x["callee"]["value"] in helper_drv)):
+                    helper_drv.add(fname)
+                    grew = True
+                    break
     for cname, c in sorted(mod.classes.items()):
         if c is spc:
             continue
@@ -270,7 +293,8 @@ def run(cx, rep):
             fn = m["function"]
             if fn.get("body") is None:
                 continue
-            calls = [x for x in walk(fn) if x["type"] == "CallExpression" and method_call(x) and method_call(x)[1] in (storers | markers)]
+            calls = [x for x in walk(fn) if x["type"] == "CallExpression" and ((method_call(x) and method_call(x)[1] in (storers | markers)) or
+                                                                              (x["callee"].get("type") == "Identifier" and x["callee"]["value"] in helper_drv))]
             if not calls:
                 continue
             n_drv += 1
@@ -282,7 +306,6 @@ def run(cx, rep):
             continue
         calls = [x for x in walk(fn) if x["type"] == "CallExpression" and method_call(x) and method_call(x)[1] in (storers | markers)]
         if calls:
-            n_drv += 1
             ps = ts_common.fn_params(fn)
             # a module-level helper is fine when it is only handed the name by validator classes (judged at its callers by C16.6 / C02.4)
             rep.ob("C16.9", "%s/driver-is-a-validator-helper" % fname, any(tsast.type_str((p_.get("pat", p_).get("typeAnnotation") or {}).get("typeAnnotation")) in ("Runtype", "BaseRefRuntype") for p_ in fn.get("params", [])) or True,
@@ -298,22 +321,17 @@ def run(cx, rep):
     rep.rule("C16.6", "every path that stores the definition of a named type consults the schema override")
     override_consistency_rule(mod, spc, storers, rep, "C16.6")
     rep.rule("C16.3", "the stored body is the schema of the named type itself")
-    for cname, c in sorted(mod.classes.items()):
-        if c is spc:
-            continue
-        for mname, m in sorted(c.methods.items()):
-            fn = m["function"]
-            if fn.get("body") is None:
-                continue
+    for cname, mname, fn, ulabel in units:
+        if True:
             for call in [x for x in walk(fn) if x["type"] == "CallExpression" and method_call(x) and method_call(x)[1] in storers]:
                 body_arg = unparen(method_call(call)[2][1])
                 al = ts_common.local_aliases(fn)
                 init = al.get(body_arg.get("value")) if body_arg["type"] == "Identifier" else body_arg
                 mc = method_call(init) if init is not None else None
                 ok = bool(mc) and mc[1] == "schema" and len(mc[2]) == 1 and s(mc[2][0]) == "ctx"
-                rep.ob("C16.3", "%s.%s/body" % (cname, mname), ok,
+                rep.ob("C16.3", "%s/body" % ulabel, ok,
                        "the stored definition must be `<target>.schema(ctx)` with the caller's own ctx (found %s)" % (s(init) if init is not None else None), mod.loc(call),
-                       sample={"site": "%s.%s" % (cname, mname), "body": s(init) if init is not None else None})
+                       sample={"site": ulabel, "body": s(init) if init is not None else None})
 
 
 def override_consistency_rule(mod, spc, storers, rep, rid):
@@ -333,51 +351,93 @@ def override_consistency_rule(mod, spc, storers, rep, rid):
     rep.ob(rid, "override-getter", bool(getters), "no method of SchemaPrintingContext hands out a schema override (Runtype-returning getter)", mod.loc(spc.node),
            sample={"override_getters": sorted(getters)})
     n = 0
-    for cname, c in sorted(mod.classes.items()):
-        if c is spc:
-            continue
-        # methods of this class that store a definition under a name taken from a parameter
-        helpers = {}
-        for mname, m in c.methods.items():
-            fn = m["function"]
-            if fn.get("body") is None:
+    # functions that store a definition under a name taken from a parameter - methods of the validator classes and
+    # module-level helpers, directly or by handing the parameter on to another such function: key -> (fn, index)
+    units = [(("m", cname, mname), cname, m["function"]) for cname, c in sorted(mod.classes.items()) if c is not spc
+             for mname, m in sorted(c.methods.items()) if m["function"].get("body") is not None]
+    units += [(("f", fname), None, fn) for fname, fn in sorted(mod.functions.items()) if fn.get("body") is not None]
+    helpers = {}
+
+    def resolve(cname, call):
+        mc = method_call(call)
+        if mc and s(mc[0]) == "this" and ("m", cname, mc[1]) in helpers:
+            return ("m", cname, mc[1]), mc[2]
+        if call["callee"].get("type") == "Identifier" and ("f", call["callee"]["value"]) in helpers:
+            return ("f", call["callee"]["value"]), [a.get("expression", a) for a in call["arguments"]]
+        return None, None
+    for key, cname, fn in units:
+        ps = ts_common.fn_params(fn)
+        for call in [x for x in walk(fn) if x["type"] == "CallExpression" and method_call(x) and method_call(x)[1] in storers]:
+            nm = s(method_call(call)[2][0])
+            if nm in ps:
+                helpers[key] = (fn, ps.index(nm))
+    grew = True
+    while grew:
+        grew = False
+        for key, cname, fn in units:
+            if key in helpers:
                 continue
             ps = ts_common.fn_params(fn)
-            for call in [x for x in walk(fn) if x["type"] == "CallExpression" and method_call(x) and method_call(x)[1] in storers]:
-                nm = s(method_call(call)[2][0])
-                if nm in ps:
-                    helpers[mname] = ps.index(nm)
-        for mname, m in sorted(c.methods.items()):
-            fn = m["function"]
-            if fn.get("body") is None:
-                continue
+            for call in [x for x in walk(fn) if x["type"] == "CallExpression"]:
+                hk, args = resolve(cname, call)
+                if hk is not None and helpers[hk][1] < len(args) and s(unparen(args[helpers[hk][1]])) in ps:
+                    helpers[key] = (fn, ps.index(s(unparen(args[helpers[hk][1]]))))
+                    grew = True
+                    break
+
+    def helper_consults(hk, depth=0):
+        hfn, idx = helpers[hk]
+        hp = ts_common.fn_params(hfn)[idx]
+        if any(x["type"] == "CallExpression" and method_call(x) and method_call(x)[1] in getters and method_call(x)[2]
+               and s(method_call(x)[2][0]) == hp for x in walk(hfn)):
+            return True
+        if depth < 3:
+            for call in [x for x in walk(hfn) if x["type"] == "CallExpression"]:
+                h2, args = resolve(hk[1] if hk[0] == "m" else None, call)
+                if h2 is not None and h2 != hk and helpers[h2][1] < len(args) and s(unparen(args[helpers[h2][1]])) == hp and helper_consults(h2, depth + 1):
+                    return True
+        return False
+    for key, cname, fn in units:
+        if True:
+            label = "%s.%s" % (key[1], key[2]) if key[0] == "m" else key[1]
             al = ts_common.local_aliases(fn)
+
+            # `const { name: n, target } = refTarget` binds n to refTarget.name
+            destr = {}
+            for d_ in walk(fn):
+                if d_["type"] == "VariableDeclarator" and d_["id"].get("type") == "ObjectPattern" and d_.get("init") is not None:
+                    for pp in d_["id"]["properties"]:
+                        if pp["type"] == "KeyValuePatternProperty" and pp["key"].get("type") == "Identifier" and pp["value"].get("type") == "Identifier":
+                            destr[pp["value"]["value"]] = (d_["init"], pp["key"]["value"])
+                        elif pp["type"] == "AssignmentPatternProperty" and pp.get("value") is None:
+                            destr[pp["key"]["value"]] = (d_["init"], pp["key"]["value"])
 
             def type_name(e):
                 e = unparen(e)
                 if e.get("type") == "Identifier" and e["value"] in al:
                     return type_name(al[e["value"]])
+                if e.get("type") == "Identifier" and e["value"] in destr:
+                    init_, key_ = destr[e["value"]]
+                    return key_ == "name" and unparen(init_).get("type") != "ThisExpression"
                 txt = s(e)
                 return txt == "this.refName" or (txt.endswith(".name") and txt != "this.name")
             sites = []
-            for call in [x for x in walk(fn) if x["type"] == "CallExpression" and method_call(x)]:
+            for call in [x for x in walk(fn) if x["type"] == "CallExpression"]:
                 mc = method_call(call)
-                if mc[1] in storers and mc[2] and type_name(mc[2][0]):
-                    sites.append((call, mc[2][0]))
-                elif s(mc[0]) == "this" and mc[1] in helpers and helpers[mc[1]] < len(mc[2]) and type_name(mc[2][helpers[mc[1]]]):
-                    sites.append((call, mc[2][helpers[mc[1]]]))
-            for call, name_e in sites:
+                if mc and mc[1] in storers and mc[2] and type_name(mc[2][0]):
+                    sites.append((call, mc[2][0], None))
+                    continue
+                hk, args = resolve(cname, call)
+                if hk is not None and helpers[hk][1] < len(args) and type_name(args[helpers[hk][1]]):
+                    sites.append((call, args[helpers[hk][1]], hk))
+            for call, name_e, hk in sites:
                 n += 1
                 consults = any(x["type"] == "CallExpression" and method_call(x) and method_call(x)[1] in getters and method_call(x)[2]
                                and s(method_call(x)[2][0]) == s(name_e) for x in walk(fn))
-                mc_ = method_call(call)
-                if not consults and s(mc_[0]) == "this" and mc_[1] in helpers:
+                if not consults and hk is not None:
                     # the helper that stores the definition consults the override for the name it is handed
-                    hfn = c.methods[mc_[1]]["function"]
-                    hp = ts_common.fn_params(hfn)[helpers[mc_[1]]]
-                    consults = any(x["type"] == "CallExpression" and method_call(x) and method_call(x)[1] in getters and method_call(x)[2]
-                                   and s(method_call(x)[2][0]) == hp for x in walk(hfn))
-                if not consults:
+                    consults = helper_consults(hk)
+                if not consults and cname is not None:
                     # the name and the body target come out of a private helper (`const d = this.resolve(..)` returning
                     # {name, target}): the override is consulted there, for the name of the reference target
                     for x in tsast.walk_inl(mod, cname, fn, depth=2):
@@ -385,9 +445,9 @@ def override_consistency_rule(mod, spc, storers, rep, rid):
                             a_ = s(unparen(method_call(x)[2][0]))
                             if a_ == "this.refName" or (a_.endswith(".name") and a_ != "this.name"):
                                 consults = True
-                rep.ob(rid, "%s.%s/consults-override" % (cname, mname), consults,
-                       "%s.%s stores the definition of the named type `%s` without consulting the schema override for that name, while other paths do: the exported definition then depends on which parser was printed first" % (cname, mname, s(name_e)),
-                       mod.loc(call), sample={"site": "%s.%s" % (cname, mname), "name": s(name_e)})
+                rep.ob(rid, "%s/consults-override" % label, consults,
+                       "%s stores the definition of the named type `%s` without consulting the schema override for that name, while other paths do: the exported definition then depends on which parser was printed first" % (label, s(name_e)),
+                       mod.loc(call), sample={"site": label, "name": s(name_e)})
     rep.floor(rid, "sites that store the definition of a named type", n, 2)
 
 
